@@ -436,8 +436,24 @@ class Exec:
             self.oblige(f'loop[{hdr}]/inv_entry:{lab}', p.pc, g, kind='loop', label=lab)
         assigned = _assigned_names(st)
         appended = _appended_names(st)
+        stored = _stored_bases(st)      # objects written through a subscript / attribute store inside the loop body
         def havoc(base):
             q = base.fork()
+            for nme in stored:
+                if nme is None: raise Unsupported(f'store through a computed object inside an invariant loop at line {st.lineno}')
+                v = q.env.get(nme)
+                if isinstance(v, VUnk) or v is None: continue
+                if not isinstance(v, VRef): raise Unsupported(f'store into {v!r} inside an invariant loop at line {st.lineno}')
+                cell = dict(q.heap[v.oid])
+                if v.cls == 'dict':
+                    cell['map'] = {k2: (self.fresh_value(q, shape_of(x), f'{nme}[{k2}]') if shape_of(x) != 'unk' else VUnk(f'{nme}[{k2}]')) for k2, x in cell.get('map', {}).items()}
+                elif v.cls == 'list':
+                    if 'items' in cell: cell['items'] = [(self.fresh_value(q, shape_of(x), nme) if shape_of(x) != 'unk' else VUnk(nme)) for x in cell['items']]
+                else:
+                    for f2, x in list(cell.items()):
+                        if f2.startswith('__'): continue
+                        cell[f2] = self.fresh_value(q, shape_of(x), f'{nme}.{f2}') if shape_of(x) != 'unk' else VUnk(f'{nme}.{f2}')
+                q.heap[v.oid] = cell
             for nme in appended:
                 v = q.env.get(nme)
                 if isinstance(v, VRef) and v.cls == 'list':
@@ -1626,6 +1642,24 @@ def _appended_names(st):
     for n in ast.walk(st):
         if isinstance(n, ast.Call) and isinstance(n.func, ast.Attribute) and n.func.attr in ('append', 'extend', 'insert') and isinstance(n.func.value, ast.Name):
             if n.func.value.id not in out: out.append(n.func.value.id)
+    return out
+
+
+def _stored_bases(st):
+    """names of the objects a loop body writes through `x[...] = / x[...] op= / x.attr =` (None: the object is computed)"""
+    out = []
+    def tgt(t):
+        if isinstance(t, (ast.Subscript, ast.Attribute)):
+            b = t.value
+            while isinstance(b, (ast.Subscript, ast.Attribute)): b = b.value
+            nm = b.id if isinstance(b, ast.Name) else None
+            if nm not in out: out.append(nm)
+        elif isinstance(t, (ast.Tuple, ast.List)):
+            for x in t.elts: tgt(x)
+    for n in ast.walk(st):
+        if isinstance(n, ast.Assign):
+            for t in n.targets: tgt(t)
+        elif isinstance(n, (ast.AugAssign, ast.AnnAssign)): tgt(n.target)
     return out
 
 
